@@ -18,7 +18,13 @@ type buildTable struct {
 	DirFunctions [][2]string         // kind, method name
 	CallSeq      map[string][]string // function -> methods of core it calls, in source order
 	SeqOrder     []string
+	ScanCalls    []scanCall
 	Messages     [][2]string // constant name, text
+}
+
+type scanCall struct {
+	Fn    string
+	Calls []string
 }
 
 func recvCalls(fd *ast.FuncDecl) []string {
@@ -39,6 +45,38 @@ func recvCalls(fd *ast.FuncDecl) []string {
 	})
 	return out
 }
+
+// allCalls: every call of the function body in source order, as a dotted name ("core.scanner.Next", "filepath.Join",
+// "validateIncludeFileName"); conversions and calls through other expressions are skipped.
+func allCalls(fd *ast.FuncDecl) []string {
+	var name func(e ast.Expr) string
+	name = func(e ast.Expr) string {
+		switch x := e.(type) {
+		case *ast.Ident:
+			return x.Name
+		case *ast.SelectorExpr:
+			if p := name(x.X); p != "" {
+				return p + "." + x.Sel.Name
+			}
+		}
+		return ""
+	}
+	var out []string
+	ast.Inspect(fd.Body, func(n ast.Node) bool {
+		if ce, ok := n.(*ast.CallExpr); ok {
+			if s := name(ce.Fun); s != "" {
+				out = append(out, s)
+			}
+		}
+		return true
+	})
+	return out
+}
+
+// the functions of the scan phase whose complete call sequence is extracted (Gen.scanCalls)
+var scanPhase = map[string]bool{"scanProject": true, "drainCurrentScanner": true, "next": true, "processKeyword": true, "processParameter": true,
+	"processContextEnd": true, "processEOF": true, "setCurrentDirective": true, "processCurrentDirective": true, "processInclude": true,
+	"getIncludedFilePath": true, "closeLastExplicitContext": true, "checkBannedDirective": true, "isScanningFinished": true}
 
 func extractBuildTable(repo string) *buildTable {
 	t := &buildTable{CallSeq: map[string][]string{}}
@@ -63,6 +101,9 @@ func extractBuildTable(repo string) *buildTable {
 			fd, ok := d.(*ast.FuncDecl)
 			if !ok || fd.Body == nil {
 				continue
+			}
+			if scanPhase[fd.Name.Name] && fd.Recv != nil {
+				t.ScanCalls = append(t.ScanCalls, scanCall{fd.Name.Name, allCalls(fd)})
 			}
 			if want[fd.Name.Name] && fd.Recv != nil {
 				if _, dup := t.CallSeq[fd.Name.Name]; dup {
@@ -162,6 +203,16 @@ func renderBuildTable(t *buildTable) string {
 	for i, f := range t.SeqOrder {
 		b.WriteString("  (" + strconv.Quote(f) + ", [" + quoteAll(t.CallSeq[f]) + "])")
 		if i+1 < len(t.SeqOrder) {
+			b.WriteString(",")
+		}
+		b.WriteString("\n")
+	}
+	b.WriteString("]\n\n/-- every call made by the functions of the scan phase (core/scan_project*.go, core/include.go), in source order -/\n")
+	b.WriteString("def scanCalls : List (String × List String) := [\n")
+	sort.Slice(t.ScanCalls, func(i, j int) bool { return t.ScanCalls[i].Fn < t.ScanCalls[j].Fn })
+	for i, f := range t.ScanCalls {
+		b.WriteString("  (" + strconv.Quote(f.Fn) + ", [" + quoteAll(f.Calls) + "])")
+		if i+1 < len(t.ScanCalls) {
 			b.WriteString(",")
 		}
 		b.WriteString("\n")
